@@ -226,8 +226,22 @@ def reflect_cfg(env, cfg):
                         local.append(i)
             rels.append(dict(key=rk, dir=r.direction.name, local=sorted(local), excl=is_excl(rk)))
         strategy = vo.get('strategy', env.manager.options['strategy']) if versioned else 'subquery'
-        out.append(dict(name=cls.__name__, py=ci, versioned=versioned, validity=(strategy == 'validity'),
-                        tab=part['tab'], cols=cols, rels=rels))
+        validity = (strategy == 'validity')
+        # joined-table hierarchies: the predecessor is looked up in the base table of the hierarchy only
+        # (update_version_validity); the part of a class in a child table never closes anything itself, and closing
+        # the predecessor closes its rows in the child tables of the hierarchy too
+        base_table = m.base_mapper.local_table
+        also = []
+        if validity and versioned:
+            if part['table'] is not base_table:
+                validity = False
+            else:
+                for p2 in model_classes(env):
+                    if sa.inspect(p2['cls']).base_mapper is m.base_mapper and p2['table'] is not base_table \
+                            and p2['tab'] is not None and p2['tab'] not in also:
+                        also.append(p2['tab'])
+        out.append(dict(name=cls.__name__, py=ci, versioned=versioned, validity=validity,
+                        tab=part['tab'], cols=cols, rels=rels, also=sorted(also)))
     if cfg.get('activity'):
         # pending Activity objects make the session count as modified (ActivityPlugin.is_session_modified):
         # they are recorded as objects of a pseudo class that has no columns and never gets events
@@ -244,6 +258,9 @@ def g_cfg(cfg, ccfg):
                                      glist(r['local'], gnat), gbool(r['excl']))
 
     def gcls(k):
+        if k.get('also'):
+            return '(mkcls7 %s %s %s %s %s %s)' % (gbool(k['versioned']), gbool(k['validity']), gZ(k['tab']),
+                                                   glist(k['cols'], gcol), glist(k['rels'], grel), glist(k['also'], gZ))
         return '(mkcls %s %s %s %s %s)' % (gbool(k['versioned']), gbool(k['validity']), gZ(k['tab']),
                                            glist(k['cols'], gcol), glist(k['rels'], grel))
     return '(mkcfg %s %s %s %s %s %s)' % (
@@ -268,18 +285,28 @@ def gen_program(rng, cfg, n_ops=None, weights=None):
     elif shape == 'inh':
         # one key space (item.id) for the whole hierarchy, but a key is never reused by ANOTHER class: closing the
         # predecessor closes every table of the predecessor's class, which the per-table model does not follow
+        # one key space (item.id) for the whole hierarchy; a key may come back as ANOTHER class in a later
+        # transaction, never within the transaction that deleted it (the model does not express a class change
+        # inside one transaction; that case is covered by twin-run corpus cases of C07)
         classes = [0, 1, 1, 2]
-        keypool = {0: [1, 2], 1: [3, 4, 5], 2: [6, 7]}
+        keypool = {0: [1, 2, 3], 1: [1, 2, 3, 4], 2: [1, 2, 5]}
     else:
         classes = [0, 1]
         keypool = {0: [[1, 1], [1, 2], [2, 1]], 1: ['a', 'b']}
     links = set()
+    gone_in_tx = {}
     if cfg.get('manualtx') and rng.random() < 0.5:
         ops.append(['manualtx'])
     for _ in range(n):
         r = rng.random()
         c = rng.choice(classes if rng.random() < 0.8 else [0, 0, 1])
         key = rng.choice(keypool[c])
+        if shape == 'inh':
+            held = [c2 for (c2, k2) in exists if k2 == json.dumps(key)]
+            if held:
+                c = held[0]                      # the key is taken: operate on the class that holds it
+            elif json.dumps(key) in gone_in_tx and gone_in_tx[json.dumps(key)] != c:
+                c = gone_in_tx[json.dumps(key)]  # deleted in this transaction: only the same class may come back
         ek = (c, json.dumps(key))
         if r < 0.22:
             if ek not in exists or rng.random() < 0.07:
@@ -297,6 +324,7 @@ def gen_program(rng, cfg, n_ops=None, weights=None):
             if ek in exists or rng.random() < 0.05:
                 ops.append(['del', c, key])
                 exists.pop(ek, None)
+                gone_in_tx[json.dumps(key)] = c
         elif r < 0.72 and shape == 'inh':
             if rng.random() < 0.5:
                 ops.append(['forget'])
@@ -304,6 +332,7 @@ def gen_program(rng, cfg, n_ops=None, weights=None):
                 # load through the base class (child columns unloaded), then delete
                 ops.append(['delbase', c, key])
                 exists.pop(ek, None)
+                gone_in_tx[json.dumps(key)] = c
         elif r < 0.72 and shape == 'own':
             if rng.random() < 0.6:
                 p_, o_ = rng.choice(keypool[1]), rng.choice(keypool[0] + [None])
@@ -339,10 +368,12 @@ def gen_program(rng, cfg, n_ops=None, weights=None):
             ops.append(['flush'])
         elif r < 0.94:
             ops.append(['commit'])
+            gone_in_tx = {}
         elif r < 0.97:
             ops.append(['rollback'])
             exists = {}       # the guide is reset; later ops may hit absent keys (malformed stream)
             links = set()
+            gone_in_tx = {}
         else:
             ops.append(['query', c])
     ops.append(['commit'])
